@@ -27,7 +27,7 @@ RULE = (
     "while_do / do_while around repeat(n)) so that it must run n times per subscription; a quarter to a third of the "
     "'lists' / 'catch' cases use the shape 'source terminating synchronously inside its own subscribe, followed by a "
     "source still running when its subscribe returns' for every operator form; subscribed at a generated tick on the virtual "
-    "scheduler or through the default CurrentThreadScheduler trampoline. Oracle: (a) closed-form walk over the timelines "
+    "scheduler (TestScheduler, one case in five HistoricalScheduler with 1 ms ticks) or through the default CurrentThreadScheduler trampoline. Oracle: (a) closed-form walk over the timelines "
     "gives the exact expected trace (ticks, values, terminal) = concatenation of the consumed sources' elements offset by "
     "the previous terminal's tick; (b) over the subscription logs: the global subscription order and subscribe ticks "
     "equal the walk's, every earlier subscription is closed no later (tick) than the next is opened, the "
@@ -418,7 +418,7 @@ def _run(case):
         return SKIP("diverges")
     op = case["op"]
     who = f"{op}/{case['form']}"
-    lab = Lab()
+    lab = Lab("hist", tick_s=0.001) if case.get("clock") == "hist" else Lab()
     S = [TSource(lab, spec, f"s{i}") for i, spec in enumerate(case["srcs"])]
     o = build(case, lab, S)
     p = lab.probe()
@@ -439,6 +439,7 @@ def _run(case):
             if len(exp_subs) >= 3:
                 cls.append("repeat(n)-resubscribed:>=3-runs")
     cls.append("sched:" + str(case["sched"]))
+    cls.append("clock:" + case.get("clock", "test"))
     if any(s["kind"] == "sync" for s in case["srcs"]):
         cls.append("has-sync-source")
     kinds = "".join(sorted(set((r["kind"] or "-")[0] for r in exp_subs)))
@@ -523,7 +524,7 @@ def _run(case):
 _MOSTLY_C = ("C", "C", "C", "E", "C", "C", "C", None)
 _MOSTLY_E = ("E", "E", "E", "C", "E", "E", "E", None)
 _KIND = st.sampled_from(["cold", "cold", "sync"])
-_COMMON = {"t0": st.integers(0, 3), "sched": st.sampled_from(["lab", "lab", "none"])}
+_COMMON = {"t0": st.integers(0, 3), "sched": st.sampled_from(["lab", "lab", "none"]), "clock": st.sampled_from(["test", "test", "test", "test", "hist"])}
 
 
 _ERRS = ["e1", "e2"]
